@@ -13,7 +13,7 @@ echo "== demo WITH change"; timeout 1200 cargo test --offline $extra --test seed
 echo "== suite WITH change (demo moved aside)"; mv tests/seeded_demo.rs /tmp/seeded_demo_$id.rs
 timeout 1800 cargo test --workspace --no-fail-fast --offline -- --test-threads 8 2>&1 | grep -E "^test result|FAILED|failed" | head -20
 mv /tmp/seeded_demo_$id.rs tests/seeded_demo.rs
-echo "== demo WITHOUT change"; git stash push -q -- src; timeout 1200 cargo test --offline $extra --test seeded_demo 2>&1 | grep -E "^test |test result|panicked" | head -20; git stash pop -q
+echo "== demo WITHOUT change"; git diff -- src > /tmp/confirm_$id.patch; git checkout -- src; timeout 1200 cargo test --offline $extra --test seeded_demo 2>&1 | grep -E "^test |test result|panicked" | head -20; git apply /tmp/confirm_$id.patch
 echo "== diffstat"; git diff --stat -- src
 } > $out/confirm.log 2>&1
 echo done $id
